@@ -71,11 +71,9 @@ class Pool:
 
 
 # --------------------------------------------------------------------------- element level
-def names_level(ctx, pool):
+def names_level(ctx, pool, res, dump):
     """TLC enumerates (element, setting); the transcription is compared with the real validators,
     the reference predicate with C git (third opinion on the spec), the tables with the real bytes."""
-    dump = os.path.join(ctx.tmpdir("names"), "names")
-    res = tlc.run("WorkTreeConfNamesMC.tla", "WorkTreeConfNamesMC.cfg", workers=2, dump_states=dump, timeout=300)
     ctx.add_tlc("WorkTreeConfNamesMC (elements x protectNTFS x protectHFS, UnsafeRefused on the transcription)", res)
     sts = list(tlc.load_state_dump(dump))
     rows = [(str(s["comp"]), bool(s["cpr"]["ntfs"]), bool(s["cpr"]["hfs"]), bool(s["acc"]), bool(s["uns"])) for s in sts]
@@ -184,34 +182,60 @@ def _probe(job):
 
 
 # --------------------------------------------------------------------------- graph replay
-def graph_replay(ctx, pool, name, consts, flags, unsafe, comps, budget_s):
-    d = ctx.tmpdir("g")
+class TlcJobs:
+    """TLC runs started ahead of time on a few threads (the JVMs run while the real code is replayed)."""
+
+    def __init__(self, ctx, parallel):
+        from concurrent.futures import ThreadPoolExecutor
+        self.ctx = ctx
+        self.ex = ThreadPoolExecutor(parallel)
+        self.fut = {}
+
+    def submit(self, key, *a, **kw):
+        self.fut[key] = self.ex.submit(tlc.run, *a, **kw)
+
+    def get(self, key):
+        return self.fut.pop(key).result()
+
+    def close(self):
+        self.ex.shutdown(wait=False, cancel_futures=True)
+
+
+def graph_submit(ctx, jobs, name, consts, flags):
+    d = ctx.tmpdir("g-" + name)
     dot = os.path.join(d, "g.dot")
     fixed = flags["FixDelete"] and flags["FixPatch"]
     cfg = os.path.join(d, "gen.cfg")
     constants = dict(consts, FixDelete="TRUE" if flags["FixDelete"] else "FALSE", FixPatch="TRUE" if flags["FixPatch"] else "FALSE")
     tlc.write_cfg(cfg, spec="Spec", constants=constants,
                   invariants=["TypeOK"] + (["Confined", "UnsafeRefused"] if fixed else []))
-    res = tlc.run("WorkTreeConf.tla", cfg, workers=8, dump_dot=dot, timeout=1500)
-    ctx.add_tlc(f"WorkTreeConf[{name}] graph ({'repaired' if fixed else 'as implemented'} variant)", res)
+    jobs.submit(("graph", name), "WorkTreeConf.tla", cfg, workers=ctx.pick(4, 8), dump_dot=dot, timeout=1500)
     if not fixed:
         # the model-checking claim is about the repaired design
         cfg2 = os.path.join(d, "mc.cfg")
         tlc.write_cfg(cfg2, spec="Spec", constants=dict(consts, FixDelete="TRUE", FixPatch="TRUE"),
                       invariants=["TypeOK", "Confined", "UnsafeRefused"])
-        r2 = tlc.run("WorkTreeConf.tla", cfg2, workers=8, timeout=1500)
-        ctx.add_tlc(f"WorkTreeConf[{name}] repaired variant: Confined, UnsafeRefused", r2)
+        jobs.submit(("mc", name), "WorkTreeConf.tla", cfg2, workers=ctx.pick(4, 8), timeout=1500)
+    return dot, fixed
+
+
+def graph_replay(ctx, pool, jobs, name, dot, fixed, unsafe, comps, budget_s):
+    res = jobs.get(("graph", name))
+    ctx.add_tlc(f"WorkTreeConf[{name}] graph ({'repaired' if fixed else 'as implemented'} variant)", res)
     t0 = time.time()
     g = tlc.load_dot(dot)
     states = {nid: lib.state_norm(st) for nid, st in g.nodes.items()}
-    jobs, stats = lib.graph_jobs(g, lambda st: {"ntfs": bool(st["prot"]["ntfs"]), "hfs": bool(st["prot"]["hfs"])})
-    ctx.rng.shuffle(jobs)
-    ctx.log(f"{name}: {stats['states']} states, {stats['transitions']} transitions, {len(jobs)} jobs "
+    rjobs, stats = lib.graph_jobs(g, lambda st: {"ntfs": bool(st["prot"]["ntfs"]), "hfs": bool(st["prot"]["hfs"])})
+    ctx.rng.shuffle(rjobs)
+    ctx.log(f"{name}: {stats['states']} states, {stats['transitions']} transitions, {len(rjobs)} jobs "
             f"(graph loaded in {time.time() - t0:.1f}s)")
-    sent, it = pool.run(jobs, states, unsafe, comps)
+    sent, it = pool.run(rjobs, states, unsafe, comps)
     done = collect(ctx, pool, it, len(sent), budget_s, name)
-    stats.update(done, name=name, jobs=len(jobs))
+    stats.update(done, name=name, jobs=len(rjobs))
     ctx.cov.setdefault("graph_replay", []).append(stats)
+    if not fixed:
+        r2 = jobs.get(("mc", name))
+        ctx.add_tlc(f"WorkTreeConf[{name}] repaired variant: Confined, UnsafeRefused", r2)
     return stats
 
 
@@ -240,8 +264,8 @@ def collect(ctx, pool, it, total, budget_s, name, traces=None):
             ctx.nontrivial((name, r["id"], k))
         if r["sample"] is not None and (agg["jobs_done"] <= 2 or r["violations"]):
             ctx.sample(dict(r["sample"], kind=name))
-        if time.time() - t0 > budget_s:
-            ctx.log(f"{name}: budget of {budget_s}s reached after {agg['jobs_done']}/{total} jobs")
+        if time.time() - t0 > budget_s and agg["jobs_done"] < total:
+            ctx.log(f"{name}: budget of {budget_s:.0f}s reached after {agg['jobs_done']}/{total} jobs")
             agg["truncated"] = True
             pool.restart()
             break
@@ -309,18 +333,12 @@ def trace_validation(ctx, pool, flags, unsafe, comps, count, budget_s):
 # --------------------------------------------------------------------------- run
 def run(ctx):
     pool = Pool(ctx)
+    jobs = TlcJobs(ctx, ctx.pick(5, 3))
     try:
-        unsafe, comps = names_level(ctx, pool)
+        dump = os.path.join(ctx.tmpdir("names"), "names")
+        jobs.submit("names", "WorkTreeConfNamesMC.tla", "WorkTreeConfNamesMC.cfg", workers=2, dump_states=dump, timeout=300)
         flags = pool.pool.apply(_probe, ({"scratch": pool.work},))
         ctx.cov["variant"] = flags
-        ctx.log(f"elements done; code implements FixDelete={flags['FixDelete']} FixPatch={flags['FixPatch']}")
-        # negative controls: the invariant bites on the behaviour of the snapshot
-        for cfg, expect in (("WorkTreeConf_neg_delete.cfg", "Confined"), ("WorkTreeConf_neg_patch.cfg", "Confined")):
-            r = tlc.run("WorkTreeConf.tla", cfg, workers=4, timeout=600)
-            ctx.add_tlc(f"{cfg} (negative control, expects {expect})", r, require_ok=False)
-            if expect not in r.violated:
-                raise MachineryError(f"negative control {cfg}: {expect} not violated ({r.violated})\n{r.output[-1500:]}")
-        exhaustive = True
         D = "<- ProtsDefault"
         plans = {
             "names1": ({"TreeSet": "<- TreesNames", "Ops": "<- OpsAll", "MaxLen": 1, "Prots": "<- AllProts"}, ctx.pick(20, 120)),
@@ -331,23 +349,43 @@ def run(ctx):
             "full2": ({"TreeSet": "<- TreesFull", "Ops": "<- OpsNoClone", "MaxLen": 2, "Prots": D}, 400),
         }
         order = ctx.pick(["names1", "tiny3", "mid2"], ["names1", "tiny3", "mid2", "core2", "small3", "full2"])
-        if os.environ.get("C17_ONLY"):
-            order = os.environ["C17_ONLY"].split(",")
-        plan = [(nm,) + plans.get(nm, (None, 0)) for nm in order]
-        for name, consts, budget in [p for p in plan if p[0] != "traces"]:
-            st = graph_replay(ctx, pool, name, consts, flags, unsafe, comps, budget)
-            if st.get("truncated"):
+        only = os.environ.get("C17_ONLY", "")
+        if only:
+            order = [x for x in only.split(",") if x in plans]
+        submitted = {nm: graph_submit(ctx, jobs, nm, plans[nm][0], flags) for nm in order}
+        for cfg in ("WorkTreeConf_neg_delete.cfg", "WorkTreeConf_neg_patch.cfg"):
+            jobs.submit(cfg, "WorkTreeConf.tla", cfg, workers=2, timeout=600)
+        unsafe, comps = names_level(ctx, pool, jobs.get("names"), dump)
+        ctx.log(f"elements done; code implements FixDelete={flags['FixDelete']} FixPatch={flags['FixPatch']}")
+        exhaustive = True
+        deadline = ctx.t0 + ctx.pick(78, 1080)
+        weight = {nm: plans[nm][1] for nm in order}
+        for i, nm in enumerate(order):
+            dot, fixed = submitted[nm]
+            # share of the time that is left, in proportion to the nominal budgets of the remaining phases
+            left = max(5.0, deadline - time.time() - ctx.pick(12, 200))
+            share = left * weight[nm] / sum(weight[x] for x in order[i:])
+            st = graph_replay(ctx, pool, jobs, nm, dot, fixed, unsafe, comps, max(5.0, min(share, plans[nm][1] * 3)))
+            if st.get("truncated") or st.get("unreached"):
                 exhaustive = False
-        if not os.environ.get("C17_ONLY") or "traces" in os.environ.get("C17_ONLY", ""):
-            trace_validation(ctx, pool, flags, unsafe, comps, ctx.pick(400, 6000), ctx.pick(15, 240))
+        if not only or "traces" in only:
+            trace_validation(ctx, pool, flags, unsafe, comps, ctx.pick(300, 6000), max(5.0, min(ctx.pick(10, 200), deadline - time.time())))
+        # negative controls: the invariant bites on the behaviour of the snapshot
+        for cfg, expect in (("WorkTreeConf_neg_delete.cfg", "Confined"), ("WorkTreeConf_neg_patch.cfg", "Confined")):
+            r = jobs.get(cfg)
+            ctx.add_tlc(f"{cfg} (negative control, expects {expect})", r, require_ok=False)
+            if expect not in r.violated:
+                raise MachineryError(f"negative control {cfg}: {expect} not violated ({r.violated})\n{r.output[-1500:]}")
     finally:
+        jobs.close()
         pool.close()
     ctx.cov["rule"] = ("non-trivial = a behaviour in which an operation was refused/failed or left something in the "
                        "work tree; elements: unsafe under the setting")
     ctx.assumptions += [
         "POSIX host, case-sensitive non-normalising file system (tmpfs); Windows/macOS branches of the validators not executed",
         "pure-Python dulwich (Rust extensions blocked in the workers)",
-        "trees: at most 2 root entries, one level of sub-directories; histories: at most 3 operations",
+        "trees: at most 2 root entries, sub-directories up to depth 3 in the enumerated alphabets; histories: at most 3 operations "
+        "(random histories judged by TLC: up to 6 operations, 3 root entries)",
     ]
     return ctx.finish(exhaustive=exhaustive)
 
@@ -364,7 +402,9 @@ def replay(ctx, path):
             if acc:
                 ctx.violation(obj["signature"], obj["what"], obj)
         else:
-            unsafe, comps = names_level(ctx, pool)
+            dump = os.path.join(ctx.tmpdir("names"), "names")
+            unsafe, comps = names_level(ctx, pool, tlc.run("WorkTreeConfNamesMC.tla", "WorkTreeConfNamesMC.cfg", workers=2,
+                                                            dump_states=dump, timeout=300), dump)
             steps = [{"op": s["op"], "tree": s["tree"], "alts": None, "plan": None} for s in obj["steps"]]
             job = {"prot": obj["prot"], "prefix": steps[:-1], "finals": steps[-1:], "keep_obs": True}
             sent, it = pool.run([job], {}, unsafe, comps)
